@@ -1,0 +1,31 @@
+//go:build verif
+
+// Contracts for the verification machinery in /verif (govc); only compiled with -tags verif.
+// Spec_allowed / Spec_maintenance are generated on every run from the composite literals methodsPermissions and
+// maintenanceMethods of permissions.go (see /verif/govc/tables.go); they are not stored in the repository.
+package auth
+
+// Spec_permBit maps a permission level to its bit in the masks returned by Spec_allowed.
+func Spec_permBit(p uint32) uint32 {
+	switch p {
+	case PermissionSysAdmin:
+		return 8
+	case PermissionAdmin:
+		return 4
+	case PermissionRW:
+		return 2
+	case PermissionR:
+		return 1
+	}
+	return 0
+}
+
+// The two lookup functions are eight lines of map access each; maps are outside the modelled subset, so they are
+// treated as pure functions of their arguments. Their relation to the tables (HasPermissionForMethod(p, m) iff
+// Spec_allowed(m) has the bit of p; IsMaintenanceMethod(m) iff Spec_maintenance(m)) is part of the DEFINITION of the
+// ghost functions in the gate's contract (pkg/server), i.e. an assumption listed in the evidence.
+//@ func HasPermissionForMethod
+//@   pure
+
+//@ func IsMaintenanceMethod
+//@   pure
